@@ -7,7 +7,7 @@
      V_fix    the repaired code (own _csv_cell/_csv_line, guarded chunk_data / col_to_convert).
    The theorems of Props/C18.v are about V_fix; V_orig is kept executable so that the
    refutation theorems and the correspondence run against an unrepaired tree can replay the
-   defects (F-C18a, F-C18b, F-C18c, F-C18d).
+   defects (F-C18a, F-C18b, F-C18c, F-C18d, F-C18g).
 
    Cells.  field.data[a:b] of an indexed string field is a list of str (here: its UTF-8 bytes);
    of a numeric field `.tolist()` gives Python ints / floats / bools, which the writer turns
@@ -159,8 +159,9 @@ Definition validate_selected_keys (fr:frame) (by_:colfilter) : res (list name) :
     end
   end.
 
-(* row_filter argument: None | ndarray of bool | a bool NumericField (its name, its data) *)
-Inductive rowfilter := RF_none | RF_arr (b:list bool) | RF_field (n:name) (b:list bool).
+(* row_filter argument: None | ndarray of bool | a bool NumericField (whether it is one of this
+   frame's own column objects, its name, its data) *)
+Inductive rowfilter := RF_none | RF_arr (b:list bool) | RF_field (own:bool) (n:name) (b:list bool).
 
 (* list.remove(x): removes the first occurrence *)
 Fixpoint remove_first (n:name) (l:list name) : list name :=
@@ -238,12 +239,16 @@ Definition to_csv (fuel:nat) (v:variant) (fr:frame) (rf:rowfilter) (cf:colfilter
   if chunk <=? 0 then Raise E_ValueError else
   (* field_name_to_use *)
   do names0 <- match cf with CF_none => Ok (keys fr) | _ => validate_selected_keys fr cf end;
-  (* row filter; a Field filter that is among the names is removed from the columns *)
+  (* row filter; a Field filter that is one of the columns is removed from the columns *)
   let '(flt, names) :=
     match rf with
     | RF_none => (None, names0)
     | RF_arr b => (Some b, names0)
-    | RF_field n b => (Some b, if mem_name n names0 then remove_first n names0 else names0)
+    | RF_field own n b =>
+      (* before the repair (F-C18g): `row_filter.name in field_name_to_use`, by name only;
+         after: `self.contains_field(row_filter) and ...` *)
+      let rm := match v with V_orig => true | V_fix => own end in
+      (Some b, if rm && mem_name n names0 then remove_first n names0 else names0)
     end in
   (* fields_to_use = [self._columns[f] for f in field_name_to_use] *)
   match map_opt (lookup fr) names with
